@@ -1,7 +1,6 @@
 package checks
 
 import (
-	"bytes"
 	"context"
 	"fmt"
 	"runtime"
@@ -12,6 +11,7 @@ import (
 
 	"gtverif/gen"
 	"gtverif/model"
+	"gtverif/mon"
 )
 
 // BranchTuples are the branch-string tuples of the workloads.
@@ -118,9 +118,11 @@ func Guard(fn func() error) (o Outcome) {
 
 // OutputMD calls gtree.OutputFromMarkdown on doc.
 func OutputMD(doc string, opts ...gtree.Option) Outcome {
-	var buf bytes.Buffer
-	o := Guard(func() error { return gtree.OutputFromMarkdown(&buf, strings.NewReader(doc), opts...) })
-	o.Out = buf.Bytes()
+	// a mutex-protected writer: after a massive call returned with an error, pipeline goroutines
+	// may still be writing for a moment; reading a bytes.Buffer then would be the harness's race
+	w := mon.NewRecWriter()
+	o := Guard(func() error { return gtree.OutputFromMarkdown(w, strings.NewReader(doc), opts...) })
+	o.Out = w.Bytes()
 	return o
 }
 
